@@ -441,3 +441,100 @@ Qed.
 
 Lemma delete_missing_lemma f d : assoc_str f d = None -> delete f d = (false, d).
 Proof. intros H. unfold delete. rewrite H. reflexivity. Qed.
+
+(* ---------------------------------------------------------------- quote / unquote *)
+
+Lemma hexval_hexdigit d : 0 <= d < 16 -> hexval (hexdigit d) = Some d.
+Proof.
+  intros H.
+  assert (E : d = 0 \/ d = 1 \/ d = 2 \/ d = 3 \/ d = 4 \/ d = 5 \/ d = 6 \/ d = 7 \/ d = 8 \/ d = 9 \/
+              d = 10 \/ d = 11 \/ d = 12 \/ d = 13 \/ d = 14 \/ d = 15) by lia.
+  repeat (destruct E as [->|E]; [reflexivity|]). subst. reflexivity.
+Qed.
+
+Lemma safe_not_percent c : always_safe c || (c =? SLASH) = true -> (c =? 37) = false.
+Proof.
+  intros H. destruct (c =? 37) eqn:E; [|reflexivity]. apply Z.eqb_eq in E. subst. discriminate.
+Qed.
+
+Lemma div16_bound c : 0 <= c < 256 -> 0 <= c / 16 < 16.
+Proof. intros H. split; [apply Z.div_pos; lia|apply Z.div_lt_upper_bound; lia]. Qed.
+Lemma mod16_bound c : 0 <= c mod 16 < 16.
+Proof. apply Z.mod_pos_bound. lia. Qed.
+
+Lemma unquote_quote bs : Forall (fun c => 0 <= c < 256) bs -> unquote (quote_bytes bs) = bs.
+Proof.
+  induction 1 as [|c t Hc _ IH]; [reflexivity|].
+  unfold quote_bytes in *. cbn [flat_map]. unfold quote_byte at 1.
+  destruct (always_safe c || (c =? SLASH)) eqn:S.
+  - cbn [app unquote]. rewrite (safe_not_percent c S), IH. reflexivity.
+  - cbn [app unquote]. cbn [Z.eqb Pos.eqb].
+    rewrite (hexval_hexdigit (c / 16)) by (apply div16_bound, Hc).
+    rewrite (hexval_hexdigit (c mod 16)) by (apply mod16_bound).
+    rewrite IH. f_equal. symmetry. apply Z.div_mod. lia.
+Qed.
+
+Lemma quote_byte_ascii c : 0 <= c < 256 -> Forall (fun x => 0 <= x < 128) (quote_byte c).
+Proof.
+  intros H. unfold quote_byte. destruct (always_safe c || (c =? SLASH)) eqn:S.
+  - constructor; [|constructor]. apply orb_true_iff in S. destruct S as [S|S].
+    + unfold always_safe, ascii_alpha in S. clear - S H. lia.
+    + apply Z.eqb_eq in S. subst. unfold SLASH. lia.
+  - assert (A : forall d, 0 <= d < 16 -> 0 <= hexdigit d < 128).
+    { intros d Hd. unfold hexdigit. destruct (d <? 10); lia. }
+    constructor; [lia|]. constructor; [apply A, div16_bound, H|]. constructor; [apply A, mod16_bound|constructor].
+Qed.
+
+Lemma utf8_ascii s : Forall (fun x => 0 <= x < 128) s -> flat_map utf8 s = s.
+Proof.
+  induction 1 as [|c t Hc _ IH]; [reflexivity|]. cbn [flat_map]. rewrite IH. unfold utf8.
+  destruct (c <? 128) eqn:E; [reflexivity|]. clear - Hc E. lia.
+Qed.
+
+Lemma quote_ascii bs : Forall (fun c => 0 <= c < 256) bs -> Forall (fun x => 0 <= x < 128) (quote_bytes bs).
+Proof.
+  induction 1 as [|c t Hc _ IH]; [constructor|]. unfold quote_bytes. cbn [flat_map].
+  apply Forall_app. split; [apply quote_byte_ascii, Hc|exact IH].
+Qed.
+
+(* path -> URI -> path is the identity at byte level (urllib quote_from_bytes /
+   unquote_to_bytes as transcribed): the "possibly renamed URI" names the same file *)
+Lemma uri_path_roundtrip_lemma bs :
+  Forall (fun c => 0 <= c < 256) bs -> unquote (flat_map utf8 (quote_bytes bs)) = bs.
+Proof. intros H. rewrite (utf8_ascii _ (quote_ascii bs H)). apply unquote_quote, H. Qed.
+
+(* ---------------------------------------------------------------- lines without a scheme *)
+
+Lemma assoc_local_table basedir ls raw :
+  In raw ls -> assoc_str (strip raw) (local_table basedir ls) = Some (local_ref basedir (strip raw)).
+Proof.
+  induction ls as [|x t IH]; intros I; [contradiction|]. cbn [local_table map assoc_str].
+  destruct (str_eqb (strip raw) (strip x)) eqn:E.
+  - apply str_eqb_eq in E. rewrite E. reflexivity.
+  - destruct I as [->|I]; [rewrite str_eqb_refl in E; discriminate|]. apply IH, I.
+Qed.
+
+(* With the table computed by the model (local_ref for every line), load_items never
+   needs an oracle for a scheme-less line. *)
+Lemma load_lines_no_oracle_miss raises basedir all : forall ls name,
+  (forall raw, In raw ls -> In raw all) ->
+  load_lines raises (local_table basedir all) name ls <> Raise LNoOracle.
+Proof.
+  induction ls as [|raw t IH]; intros name Sub; [discriminate|].
+  cbn [load_lines].
+  assert (St : forall raw', In raw' t -> In raw' all) by (intros r' I; apply Sub; right; exact I).
+  destruct (strip raw) as [|c l] eqn:E; [apply IH, St|].
+  destruct (c =? HASH); [apply IH, St|].
+  destruct (mem_str (c :: l) raises); [discriminate|].
+  destruct (has_scheme (c :: l)).
+  - specialize (IH None St). destruct (load_lines raises (local_table basedir all) None t) as [r|e|]; cbn;
+      [discriminate|intros X; apply IH; exact X|discriminate].
+  - rewrite <- E. rewrite (assoc_local_table basedir all raw) by (apply Sub; left; reflexivity).
+    destruct (local_ref basedir (strip raw)) as [u dn].
+    specialize (IH None St). destruct (load_lines raises (local_table basedir all) None t) as [r|e|]; cbn;
+      [discriminate|intros X; apply IH; exact X|discriminate].
+Qed.
+
+Lemma load_items_model_table_lemma raises basedir text :
+  load_items raises (local_table basedir (ulines text)) text <> Raise LNoOracle.
+Proof. unfold load_items. apply load_lines_no_oracle_miss. auto. Qed.
